@@ -318,11 +318,11 @@ pub fn run(ctx: &Ctx) -> Report {
     let table = Table::new();
     let mut tasks: Vec<Task> = vec![Task::Complete];
     let start = Pos::startpos();
-    let d0 = ctx.tier.pick(4, 5);
+    let d0 = 4; // both tiers: every position up to ply 5 from the start (4.9 M nodes)
     for m in start.legal_moves() {
         tasks.push(Task::Walk(start.make(m).to_fen(), d0));
     }
-    let budget = ctx.tier.pick(30_000.0f64, 300_000.0);
+    let budget = ctx.tier.pick(30_000.0f64, 120_000.0);
     for (i, p) in corp.positions.iter().enumerate() {
         let n2 = super::oracle::perft(p, 2).max(2) as f64;
         let mut d = 1u32;
@@ -332,13 +332,13 @@ pub fn run(ctx: &Ctx) -> Report {
         tasks.push(Task::Walk(corp.fens[i].clone(), d));
     }
     let game_batches = 32;
-    let games_total = ctx.tier.pick(40_000u32, 600_000);
+    let games_total = ctx.tier.pick(40_000u32, 240_000);
     for b in 0..game_batches {
         tasks.push(Task::Games(games_total / game_batches as u32, b));
     }
     let next = AtomicUsize::new(0);
     let merged = Mutex::new(Report::new());
-    let every = ctx.tier.pick(40u64, 60);
+    let every = ctx.tier.pick(40u64, 25);
     std::thread::scope(|sc| {
         for _t in 0..16 {
             sc.spawn(|| {
@@ -417,7 +417,7 @@ pub fn replay(_ctx: &Ctx, case: &Value) -> Report {
 }
 
 pub const LEVEL: &str = "exploration";
-pub const RULE: &str = "positions = every node of oracle-driven bounded walks (start position depth 5 quick / 6 thorough, corpus FENs to the deepest depth whose estimated walk fits 30 000 / 300 000 nodes) and of proptest-generated games, all entered into one run-wide table key -> position identity (collision between different identities = violation); every single-component perturbation (side to move; each castling right; e.p. file added/removed/moved; one piece removed/recoloured/retyped/added/shifted) of every ~40th explored position, kept inside the valid-FEN domain, must change the key and is entered too; plus a complete single-component table (10 piece kinds x admissible squares, kings x squares, 16 rights subsets, 8 e.p. files, both sides to move). Non-trivial = each new distinct position identity entered and each perturbation pair; counted distinct by identity.";
+pub const RULE: &str = "positions = every node of oracle-driven bounded walks (start position to ply 5, corpus FENs to the deepest depth whose estimated walk fits 30 000 / 120 000 nodes) and of proptest-generated games, all entered into one run-wide table key -> position identity (collision between different identities = violation); every single-component perturbation (side to move; each castling right; e.p. file added/removed/moved; one piece removed/recoloured/retyped/added/shifted) of every ~40th (quick) / ~25th (thorough) explored position, kept inside the valid-FEN domain, must change the key and is entered too; plus a complete single-component table (10 piece kinds x admissible squares, kings x squares, 16 rights subsets, 8 e.p. files, both sides to move). Non-trivial = each new distinct position identity entered and each perturbation pair; counted distinct by identity.";
 pub const ASSUMPTIONS: &[&str] = &[
     "keys are obtained as Board::from_fen(oracle FEN).zkey (the from-scratch key; C04 ties it to the incremental one)",
     "an honest 64-bit collision among N keys has probability about N^2/2^65 (5e-5 for 4e7 keys); the Zobrist seed is a constant, so the outcome is deterministic per (code, VERIF_SEED)",
